@@ -444,9 +444,15 @@ func c04Clamp(e *Env) {
 				cmpIf = i
 			}
 		}
+		viaMin := false
 		for _, ret := range core.ReturnsOf(g) {
 			n++
 			v := core.Resolve(core.RetVal(ret, 0))
+			if c, isC := v.(*ssa.Call); isC && core.CalleeName(c) == "net/blockwise.getSzx" && len(c.Call.Args) == 2 &&
+				(core.Resolve(c.Call.Args[0]) == ssa.Value(max) || core.Resolve(c.Call.Args[1]) == ssa.Value(max)) {
+				viaMin = true // min(ours, peer's) through the helper verified above
+				continue
+			}
 			switch {
 			case v == ssa.Value(max):
 				// fine on error edges and on the max ≤ szx edge
@@ -460,7 +466,7 @@ func c04Clamp(e *Env) {
 				}
 			}
 		}
-		e.R.Check(ok && cmpIf != nil && n >= 3, rule, "net/blockwise.fitSZX:min", e.fpos(g), "returns the peer's size only when it is smaller than ours, else ours", "negotiation does not clamp to the smaller side")
+		e.R.Check(ok && (cmpIf != nil || viaMin) && n >= 3, rule, "net/blockwise.fitSZX:min", e.fpos(g), "returns the peer's size only when it is smaller than ours, else ours", "negotiation does not clamp to the smaller side")
 	}
 	// BERT buffer sizing shared with C19.P8
 	table := checkSzxTableQuiet(e)
